@@ -334,11 +334,27 @@ pub fn scripted(r: &mut Report, seed: u64) {
         }
     }
     let holders: Vec<bool> = (0..n).map(|_| rng.chance(1, 4)).collect();
+    // late joiners: up to three endpoints right next to the target that nobody lists and that stay silent
+    // until they are revealed (then everybody lists them)
+    let with_late = n >= 8 && rng.bool();
+    let hidden: Vec<bool> = (0..n).map(|i| with_late && i >= 2 && i < 5).collect();
+    if with_late {
+        for i in 2..5 {
+            let mut id = center;
+            id[19] ^= 1 + i as u8;
+            if plan == 2 || plan == 0 {
+                // keep whatever security class the plan gave this address
+                id = if secure(&ends[i]) { crate::crc32c::bep42_mint(*ends[i].1.ip(), ends[i].0[19], center) } else { id };
+            }
+            ends[i].0 = id;
+        }
+    }
+    let revealed = std::rc::Rc::new(std::cell::Cell::new(false));
     let per_answer = if rng.bool() { 8 } else { 20 };
     let hostile_order = rng.chance(1, 3);
     let socks: Vec<SockId> = ends.iter().map(|e| w.raw(e.1)).collect();
     {
-        let (ends, knows, holders, socks) = (ends.clone(), knows.clone(), holders.clone(), socks.clone());
+        let (ends, knows, holders, socks, hidden, revealed) = (ends.clone(), knows.clone(), holders.clone(), socks.clone(), hidden.clone(), revealed.clone());
         let mut rr = Rng::new(mix(seed, 0x5c21));
         w.set_responder(Some(Box::new(move |w, sock, d| {
             let Some(idx) = socks.iter().position(|s| *s == sock) else { return false };
@@ -346,10 +362,16 @@ pub fn scripted(r: &mut Report, seed: u64) {
             if q.y != b'q' {
                 return true;
             }
+            if hidden[idx] && !revealed.get() {
+                return true;
+            }
             let mut rd = vec![("id", B::bytes(&ends[idx].0))];
             let name = q.q.clone().unwrap_or_default();
             if let (Some(t), true) = (q.target(), matches!(name.as_str(), "find_node" | "get_peers" | "get")) {
-                let mut list: Vec<N> = knows[idx].iter().map(|&j| ends[j]).collect();
+                let mut list: Vec<N> = knows[idx].iter().filter(|&&j| !hidden[j]).map(|&j| ends[j]).collect();
+                if revealed.get() {
+                    list.extend((0..ends.len()).filter(|j| hidden[*j] && *j != idx).map(|j| ends[j]));
+                }
                 list.sort_by(|a, b| {
                     let da: Vec<u8> = a.0.iter().zip(t.iter()).map(|(x, y)| x ^ y).collect();
                     let db: Vec<u8> = b.0.iter().zip(t.iter()).map(|(x, y)| x ^ y).collect();
@@ -441,6 +463,47 @@ pub fn scripted(r: &mut Report, seed: u64) {
         }
         if lt.answerers.iter().any(secure) && lt.answerers.iter().any(|x| !secure(x)) {
             r.count("scripted_lookups_mixing_secure_and_insecure");
+        }
+    }
+    // a write served from the cache of the latest lookup: lookup, closer nodes join, lookup again, put
+    if with_late {
+        let tid = Id::from(center);
+        let run_get = |w: &World| -> Option<LookupTrace> {
+            w.set_trace(TraceLevel::Full);
+            w.clear_trace();
+            let a = origin.adht.clone();
+            let done = w.block_on(a.get_closest_nodes(tid), 120 * SEC);
+            let trace = w.trace_from(0);
+            w.set_trace(TraceLevel::Off);
+            w.clear_trace();
+            done.map(|_| analyse(&trace, origin.addr, "get", &center))
+        };
+        let first = run_get(&w);
+        revealed.set(true);
+        w.run_for(2 * SEC);
+        let second = run_get(&w);
+        w.set_trace(TraceLevel::Full);
+        w.clear_trace();
+        let a = origin.adht.clone();
+        let v2 = value.clone();
+        let put = w.block_on(async move { a.put_immutable(&v2).await }, 120 * SEC);
+        let trace = w.trace_from(0);
+        w.set_trace(TraceLevel::Off);
+        w.clear_trace();
+        if let (Some(_), Some(second), Some(Ok(_))) = (first, second, put) {
+            let lt = analyse(&trace, origin.addr, "get", &center);
+            let latest = dedup_sorted(second.responders.clone(), &center);
+            let newcomers_answered = latest.iter().take(20).filter(|x| (0..n).any(|i| hidden[i] && ends[i].1 == x.1)).count();
+            if lt.queried.is_empty() && newcomers_answered > 0 {
+                let wrote: HashSet<SocketAddrV4> = lt.put_targets.iter().copied().collect();
+                let prefix: HashSet<SocketAddrV4> = latest.iter().take(wrote.len()).map(|x| x.1).collect();
+                let mut c = case_base.clone();
+                c["kind"] = json!("PutImmutable-from-cache-after-newcomers");
+                if wrote != prefix || wrote.len() < latest.len().min(20) {
+                    r.violation("put/cached-write-set-not-the-latest-closest-responders", "a put served from the lookup cache did not go to the closest responders of the most recent lookup of its target", c, json!({"wrote": wrote.iter().map(|a| a.to_string()).collect::<Vec<_>>(), "latest_closest_responders": latest.iter().take(20).map(show).collect::<Vec<_>>(), "newcomers_among_them": newcomers_answered}));
+                }
+                r.count("scripted_cached_puts_after_newcomers");
+            }
         }
     }
     if w.stuck() {
